@@ -110,14 +110,18 @@ def _one(c, r):
             else:
                 flo[a] = fhi[a] - 1
             dets.append({"kind": "poynting", "name": f"face{a}{side}", "lo": flo, "hi": fhi, "axis": a, "direction": "+", "reduce": True, "exact": exact})
-    # a plane with every option combination
-    pa = int(rng.integers(3))
-    plo, phi = list(lo), list(hi)
-    phi[pa] = plo[pa] + 1
-    for d in "+-":
-        for red in (True, False):
-            for ka in (True, False):
-                dets.append({"kind": "poynting", "name": f"pl{d}{int(red)}{int(ka)}", "lo": plo, "hi": phi, "axis": pa, "direction": d, "reduce": red, "keep_all": ka, "exact": exact})
+    # one plane per normal axis, each with every option combination
+    planes = {}
+    for pa in range(3):
+        plo, phi = list(lo), list(hi)
+        phi[pa] = plo[pa] + 1
+        planes[pa] = (plo, phi)
+        for d in "+-":
+            for red in (True, False):
+                for ka in (True, False):
+                    dets.append({"kind": "poynting", "name": f"pl{pa}{d}{int(red)}{int(ka)}", "lo": plo, "hi": phi, "axis": pa, "direction": d, "reduce": red, "keep_all": ka, "exact": exact})
+    # spatial all-component flux over the whole box: independent reference for the closed surface
+    dets.append({"kind": "poynting", "name": "box_all", "lo": lo, "hi": hi, "axis": 0, "direction": "+", "reduce": False, "keep_all": True, "exact": exact})
     s["detectors"] = dets
     built = scenes.build(s)
     objects, config = built["objects"], built["config"]
@@ -135,7 +139,7 @@ def _one(c, r):
         return ws[0][:, None, None] * ws[1][None, :, None] * ws[2][None, None, :]
 
     deg = tuple(int(h - l == 1) for l, h in zip(lo, hi))
-    wit = {"case": c, "box": [lo, hi], "plane_axis": pa, "components": sub, "exact": exact, "shape": shape}
+    wit = {"case": c, "box": [lo, hi], "components": sub, "exact": exact, "shape": shape}
     r.branch("grid:" + c["grid"])
     r.branch("exact" if exact else "raw")
 
@@ -151,20 +155,39 @@ def _one(c, r):
     rel("field_reduced_is_volume_weighted_mean", D["f_red/fields"], (D["f_sp/fields"] * V[None, None]).sum(axis=(2, 3, 4)) / V.sum(), terms=D["f_sp/fields"])
     rel("phasor_reduced_is_volume_weighted_mean", D["p_red/phasor"], (D["p_sp/phasor"] * V[None, None, None]).sum(axis=(3, 4, 5)) / V.sum(), terms=D["p_sp/phasor"])
     rel("energy_reduced_is_volume_sum", D["e_red/energy"][:, 0], (D["e_sp/energy"] * V[None]).sum(axis=(1, 2, 3)), terms=D["e_sp/energy"] * V[None])
-    A = area(plo, phi, pa)
-    sp_all = D["pl+01/poynting_flux"]  # (T,3,*plane)
-    sp_sc = D["pl+00/poynting_flux"]  # (T,*plane)
-    rel("scalar_is_propagation_component", sp_sc, sp_all[:, pa])
-    rel("reduced_scalar_is_area_sum", D["pl+10/poynting_flux"][:, 0], (sp_sc * A[None]).sum(axis=(1, 2, 3)), terms=sp_sc * A[None])
-    A3 = np.stack([area(plo, phi, a) for a in range(3)])
-    rel("reduced_vector_is_area_sum", D["pl+11/poynting_flux"], (sp_all * A3[None]).sum(axis=(2, 3, 4)), terms=sp_all * A3[None])
-    for tag in ("00", "01", "10", "11"):
-        rel("minus_direction_negates", D[f"pl-{tag}/poynting_flux"], -D[f"pl+{tag}/poynting_flux"])
+    for pa in range(3):
+        plo, phi = planes[pa]
+        A = area(plo, phi, pa)
+        sp_all = D[f"pl{pa}+01/poynting_flux"]  # (T,3,*plane)
+        sp_sc = D[f"pl{pa}+00/poynting_flux"]  # (T,*plane)
+        rel("scalar_is_propagation_component", sp_sc, sp_all[:, pa])
+        rel("reduced_scalar_is_area_sum", D[f"pl{pa}+10/poynting_flux"][:, 0], (sp_sc * A[None]).sum(axis=(1, 2, 3)), terms=sp_sc * A[None])
+        A3 = np.stack([area(plo, phi, a) for a in range(3)])
+        rel("reduced_vector_is_area_sum", D[f"pl{pa}+11/poynting_flux"], (sp_all * A3[None]).sum(axis=(2, 3, 4)), terms=sp_all * A3[None])
+        for tag in ("00", "01", "10", "11"):
+            rel("minus_direction_negates", D[f"pl{pa}-{tag}/poynting_flux"], -D[f"pl{pa}+{tag}/poynting_flux"])
     active = [a for a in range(3) if hi[a] - lo[a] > 1]
     net = sum(D[f"face{a}max/poynting_flux"][:, 0] - D[f"face{a}min/poynting_flux"][:, 0] for a in active) if active else np.zeros(T)
     face_terms = np.stack([D[f"face{a}{sd}/poynting_flux"][:, 0] for a in range(3) for sd in ("min", "max")])
     rel("closed_surface_is_signed_face_sum", D["closed/poynting_flux"][:, 0], net, terms=face_terms)
     rel("inward_negates_outward", D["closed_in/poynting_flux"][:, 0], -D["closed/poynting_flux"][:, 0])
+    # the same net flux from the spatial all-component record and areas recomputed from the grid edges
+    S = D["box_all/poynting_flux"]  # (T,3,*box)
+    net2 = np.zeros(T)
+    terms2 = []
+    for a in active:
+        for side, sgn in (("min", -1.0), ("max", 1.0)):
+            flo, fhi = list(lo), list(hi)
+            if side == "min":
+                fhi[a] = flo[a] + 1
+            else:
+                flo[a] = fhi[a] - 1
+            sl = [slice(None)] * 5
+            sl[a + 2] = slice(0, 1) if side == "min" else slice(-1, None)
+            t_ = S[tuple(sl)][:, a] * area(flo, fhi, a)[None]
+            terms2.append(np.abs(t_).max() if t_.size else 0.0)
+            net2 = net2 + sgn * t_.sum(axis=(1, 2, 3))
+    rel("closed_surface_is_area_weighted_face_flux", D["closed/poynting_flux"][:, 0], net2, terms=np.asarray(terms2 or [0.0]) * max(1, int(np.prod([h - l for l, h in zip(lo, hi)]))))
     # inverse-time phasor detector: for the same (time step, fields, state) its update subtracts exactly what the
     # forward detector's update adds (judged on the real placed detectors with random inputs)
     placed = {o.name: o for o in objects.detectors}
